@@ -128,6 +128,17 @@ pub fn check(case: &LedgerCase, obs: &mut Obs) -> Verdict {
         any = true;
     }
     if !any { return Verdict::Skip("no-accepted-security".into()); }
+    // the gains the identity is about are the ones the report totals: each accepted security's footer total = sum of its rows' gains
+    let rr = match crate::observe::run_render(&files, &case.run_opts(), true, false) { Ok(r) => r, Err(RunErr::Panic(p)) => return classify_panic(&p, csv), Err(_) => return Verdict::Fail(format!("render run failed where the delta run succeeded\n{csv}")) };
+    for sec in case.secs() {
+        let Some(tool) = res.get(&sec) else { continue };
+        if tool.err.is_some() { continue; }
+        let sum = tool.deltas.iter().filter_map(|d| d.capital_gain.as_ref()).fold(Rat::zero(), |a, g| a.add(&Rat::from_decimal(g)));
+        let Some(t) = rr.res.security_tables.get(&sec) else { return Verdict::Fail(format!("no table for {sec}")); };
+        let snap = crate::snapshot::TableSnap::of(t);
+        if let Some((total, _)) = crate::snapshot::footer_gains(&snap) { if !total.close(&sum, &tol9()) { return Verdict::Fail(format!("{sec}: the table's total capital gain is {total}, its rows' capital gains add up to {sum}\nopening={:?}\n{csv}", case.opening)); } }
+        else if !sum.is_zero() { return Verdict::Fail(format!("{sec}: cannot read the table's total although rows carry gains ({sum})\n{csv}")); }
+    }
     Verdict::Pass
 }
 
